@@ -110,6 +110,8 @@ def r2_chunks(ctx):
     consume.check(ctx, "R2")
     n0 = len(ctx.obs)
     c02.r3_carry(ctx)
+    import c01
+    c01.r3_scanners(ctx)   # terminators split between the buffered part and the chunk (only a reader sees them)
     for o in ctx.obs[n0:]:
         o["rule"] = "R2"
 
